@@ -11,7 +11,7 @@
 use crate::util::*;
 use hcobs::verif::{LimitDecoder, LimitEncoder};
 use hcobs::{Decoder, Encoder};
-use owning_iovec::{ByteArena, ConsumingIovec, OwningIovec};
+use owning_iovec::{AnchoredSlice, ByteArena, ConsumingIovec, OwningIovec};
 use serde_json::{json, Map, Value};
 use std::num::NonZeroUsize;
 
@@ -29,6 +29,9 @@ trait Codec<'a> {
     }
     /// anchored input read into `other` (an arena the codec does not own)
     fn feed_from(&mut self, other: &mut ByteArena, d: &[u8]) -> Result<(), String>;
+    /// read_n now, feed later (a producer that reads ahead of the codec)
+    fn read_ahead(&mut self, d: &[u8]) -> Result<AnchoredSlice, String>;
+    fn feed_held(&mut self, a: AnchoredSlice) -> Result<(), String>;
     fn finish(self) -> Result<OwningIovec<'a>, String>;
     /// Decoder::take_iovec: give up mid-stream, keep what was decoded so far
     fn take_iovec(self) -> Result<OwningIovec<'a>, String>
@@ -67,6 +70,13 @@ macro_rules! impl_encoder {
             }
             fn feed_read(&mut self, d: &[u8]) -> Result<(), String> {
                 $read(self, d)
+            }
+            fn read_ahead(&mut self, d: &[u8]) -> Result<AnchoredSlice, String> {
+                self.read_n(d, d.len(), NonZeroUsize::MAX).map_err(estr)
+            }
+            fn feed_held(&mut self, a: AnchoredSlice) -> Result<(), String> {
+                self.encode_anchored(a);
+                Ok(())
             }
             fn feed_from(&mut self, other: &mut ByteArena, d: &[u8]) -> Result<(), String> {
                 let a = other.read_n(d, d.len(), NonZeroUsize::MAX).map_err(estr)?;
@@ -112,6 +122,12 @@ macro_rules! impl_decoder {
             }
             fn feed_read(&mut self, d: &[u8]) -> Result<(), String> {
                 $read(self, d)
+            }
+            fn read_ahead(&mut self, d: &[u8]) -> Result<AnchoredSlice, String> {
+                self.read_n(d, d.len(), NonZeroUsize::MAX).map_err(estr)
+            }
+            fn feed_held(&mut self, a: AnchoredSlice) -> Result<(), String> {
+                self.decode_anchored(a).map_err(estr)
             }
             fn feed_from(&mut self, other: &mut ByteArena, d: &[u8]) -> Result<(), String> {
                 let a = other.read_n(d, d.len(), NonZeroUsize::MAX).map_err(estr)?;
@@ -218,6 +234,8 @@ fn run_phase<'a, C: Codec<'a>>(
     let mut all: Vec<u8> = Vec::new();
     // the producer's own arena for method "shared": lives across feeds, goes away at "drop_shared" / before finish
     let mut shared: Option<ByteArena> = None;
+    // method "ahead": the piece read by the previous "ahead" feed, not given to the codec yet
+    let mut held: Option<AnchoredSlice> = None;
     LENT.with(|c| c.set((input.as_ptr() as usize, input.len())));
     for op in ops.by_ref() {
         let ev = gets(op, "ev");
@@ -249,14 +267,34 @@ fn run_phase<'a, C: Codec<'a>>(
                 let m = gets(op, "m");
                 let piece = &input[pos..pos + n];
                 pos += n;
-                let r = guarded(|| match m {
-                    "borrow" => c.feed_borrow(piece),
-                    "copy" => c.feed_copy(piece),
-                    "anchored" => c.feed_anchored(piece),
-                    "read" => c.feed_read(piece),
-                    "foreign" => c.feed_foreign(piece),
-                    "shared" => c.feed_from(shared.get_or_insert_with(ByteArena::new), piece),
-                    _ => panic!("harness: unknown feed method {m}"),
+                let mut n = n;
+                let r = guarded(|| {
+                    if m == "ahead" {
+                        // read this piece now, give the codec the piece read by the previous "ahead" feed
+                        let a = c.read_ahead(piece)?;
+                        if a.slice() != piece {
+                            return Err("harness: read_n returned other bytes".into());
+                        }
+                        n = 0;
+                        if let Some(prev) = held.replace(a) {
+                            n = prev.slice().len();
+                            c.feed_held(prev)?;
+                        }
+                        return Ok(());
+                    }
+                    if let Some(prev) = held.take() {
+                        n += prev.slice().len();
+                        c.feed_held(prev)?;
+                    }
+                    match m {
+                        "borrow" => c.feed_borrow(piece),
+                        "copy" => c.feed_copy(piece),
+                        "anchored" => c.feed_anchored(piece),
+                        "read" => c.feed_read(piece),
+                        "foreign" => c.feed_foreign(piece),
+                        "shared" => c.feed_from(shared.get_or_insert_with(ByteArena::new), piece),
+                        _ => panic!("harness: unknown feed method {m}"),
+                    }
                 });
                 e.insert("m".into(), json!(m));
                 e.insert("n".into(), json!(n));
@@ -400,6 +438,10 @@ fn run_phase<'a, C: Codec<'a>>(
             "finish" | "take_iovec" => {
                 let take = ev == "take_iovec";
                 let r = guarded(move || {
+                    let mut c = c;
+                    if let Some(prev) = held.take() {
+                        c.feed_held(prev)?;
+                    }
                     let fin = if take { c.take_iovec() } else { c.finish() };
                     fin.map(|iov| {
                         let pending = iov.has_pending_backrefs();
